@@ -554,8 +554,28 @@ func hexOrHash(b []byte) string {
 	return fmt.Sprintf("%d:%016x", len(b), lp.Fnv(b))
 }
 
-// report canonicalises the wire: status line, sorted header lines (Date pinned unless the handler set it),
-// hash of the framed body up to the last-chunk line, sorted trailer lines.
+// sortByName orders field lines by field name only, keeping the wire order of the lines of one name (Go's map
+// order is random across names; the order of the values of ONE name is the handler's and is compared).
+func sortByName(lines [][]byte) []string {
+	type kv struct{ k, v string }
+	var xs []kv
+	for _, l := range lines {
+		k := l
+		if i := bytes.IndexByte(l, ':'); i >= 0 {
+			k = l[:i]
+		}
+		xs = append(xs, kv{lp.Hex(k), hexOrHash(l)})
+	}
+	sort.SliceStable(xs, func(i, j int) bool { return xs[i].k < xs[j].k })
+	out := make([]string, len(xs))
+	for i, x := range xs {
+		out[i] = x.v
+	}
+	return out
+}
+
+// report canonicalises the wire: status line, header lines sorted by field name (Date pinned unless the handler
+// set it), hash of the framed body up to the last-chunk line, trailer lines sorted by field name.
 func report(wire []byte) string {
 	head, rest := wire, []byte(nil)
 	if i := bytes.Index(wire, []byte("\r\n\r\n")); i >= 0 {
@@ -563,7 +583,7 @@ func report(wire []byte) string {
 	}
 	lines := bytes.Split(head, []byte("\r\n"))
 	first := lines[0]
-	var others []string
+	var raw [][]byte
 	chunked := false
 	for _, l := range lines[1:] {
 		if bytes.HasPrefix(l, []byte("Date: ")) && len(l) == 6+len(datePlaceholder) && bytes.HasSuffix(l, []byte(" GMT")) {
@@ -572,9 +592,9 @@ func report(wire []byte) string {
 		if string(l) == "Transfer-Encoding: chunked" {
 			chunked = true
 		}
-		others = append(others, hexOrHash(l))
+		raw = append(raw, l)
 	}
-	sort.Strings(others)
+	others := sortByName(raw)
 	trl := "-"
 	if chunked {
 		// trailer block = what follows the LAST "\r\n0\r\n" (or a leading "0\r\n")
@@ -587,12 +607,7 @@ func report(wire []byte) string {
 		if cut >= 0 {
 			tl := bytes.Split(rest[cut:], []byte("\r\n"))
 			rest = rest[:cut]
-			var ts []string
-			for _, l := range tl {
-				ts = append(ts, hexOrHash(l))
-			}
-			sort.Strings(ts)
-			trl = strings.Join(ts, ",")
+			trl = strings.Join(sortByName(tl), ",")
 		}
 	}
 	hs := strings.Join(others, ",")
